@@ -323,6 +323,14 @@ def replay_linear(chk, rs, c, variants):
                     _viol(chk, rs, c, "homogeneity", "scaling source and background by %g does not scale the fields by the same factor (flux %.3e, conc %.3e relative)" % (sfac, dfh, dph), **extra)
                     return
         # sources without net flux (a dipole, the zero field): the background must still reach every level
+        if not c["fp"] and c.get("geom") and (c["geom"]["px"] or c["geom"]["py"]):
+            # call history: a dense source on a grid of the PADDED size with halo 0, right before the zero-field solves
+            g_ = c["geom"]
+            kwb = dict(kw, domain=(g_["nxe"] * c["ax"] * rs.U, g_["nye"] * c["ay"] * rs.U), halo=0.0, meas_pt=(0.0, 0.0))
+            try:
+                rs.solve3(rng.uniform(1.0, 2.0, size=(g_["nye"], g_["nxe"])), kwb, srf_bg_conc=0.0)
+            except Exception:
+                pass
         if not c["fp"]:
             qd = np.zeros_like(q1)
             qd.flat[0], qd.flat[-1] = 1.5, -1.5
